@@ -11,8 +11,8 @@
 package bed
 
 import (
+	"bufio"
 	"bytes"
-	"encoding/csv"
 	"fmt"
 	"io"
 	"strconv"
@@ -231,15 +231,13 @@ func parseLine(fields []string) (*BED, error) {
 
 // A reader reads and parses BED lines.
 type reader struct {
-	r *csv.Reader
+	r       *bufio.Reader
+	nfields int // Number of fields in the first line, 0 if not read yet.
 }
 
 // newReader returns a new BED reader that reads from r.
 func newReader(r io.Reader) *reader {
-	cr := csv.NewReader(r)
-	cr.Comma = '\t'
-	cr.Comment = '#'
-	return &reader{cr}
+	return &reader{r: bufio.NewReader(r)}
 }
 
 // read returns the next BED line, and n as the number of fields that were found.
@@ -248,10 +246,31 @@ func newReader(r io.Reader) *reader {
 //
 // For example if n=5, then the populated fields are Chrom, ChromStart, ChromEnd,
 // Name and Score.
+//
+// Empty lines and lines that start with '#' are skipped. All lines should have
+// the same number of fields. BED has no quoting: lines are split on tabs as
+// they are.
 func (r *reader) read() (b *BED, err error) {
-	line, err := r.r.Read()
-	if err != nil {
-		return nil, err
+	for {
+		line, err := r.r.ReadString('\n')
+		if err != nil && (err != io.EOF || line == "") {
+			return nil, err
+		}
+		line = strings.TrimSuffix(line, "\n")
+		line = strings.TrimSuffix(line, "\r")
+		if line == "" || line[0] == '#' {
+			if err == io.EOF {
+				return nil, io.EOF
+			}
+			continue
+		}
+		fields := strings.Split(line, "\t")
+		if r.nfields == 0 {
+			r.nfields = len(fields)
+		} else if len(fields) != r.nfields {
+			return nil, fmt.Errorf("wrong number of fields: %v, want %v",
+				len(fields), r.nfields)
+		}
+		return parseLine(fields)
 	}
-	return parseLine(line)
 }
